@@ -416,6 +416,47 @@ def _gen_provenance(ctx, fn: FunctionInfo, ng: ast.AST, use: ast.AST, depth: int
                                         probs.append(f"the pattern does not cover generated names with '{sep}'")
                                 if "_var_" not in pat:
                                     probs.append("the pattern does not cover generated variable names")
+                                # capture groups of the pattern: which hold a kind, which an index
+                                groups = []
+                                depth_ = 0
+                                start_ = None
+                                i_ = 0
+                                while i_ < len(pat):
+                                    ch = pat[i_]
+                                    if ch == "\\":
+                                        i_ += 2
+                                        continue
+                                    if ch == "(":
+                                        if pat[i_ + 1:i_ + 2] != "?" and depth_ == 0:
+                                            start_ = i_
+                                        depth_ += 1
+                                    elif ch == ")":
+                                        depth_ -= 1
+                                        if depth_ == 0 and start_ is not None:
+                                            groups.append(pat[start_ + 1:i_])
+                                            start_ = None
+                                    i_ += 1
+                                kind_g = {n + 1 for n, g_ in enumerate(groups) if "\\d" not in g_}
+                                idx_g = {n + 1 for n, g_ in enumerate(groups) if "\\d" in g_}
+                                mvar = None
+                                par_ = A.parent(q)
+                                if isinstance(par_, ast.Assign) and isinstance(par_.targets[0], ast.Name):
+                                    mvar = par_.targets[0].id
+                                if mvar and kind_g and idx_g:
+                                    def groups_of(e_):
+                                        return {c.args[0].value for c in ast.walk(e_) if isinstance(c, ast.Call) and isinstance(c.func, ast.Attribute) and c.func.attr == "group" and A.unparse(c.func.value) == mvar and c.args and isinstance(c.args[0], ast.Constant)}
+                                    for st_ in A.walk_no_nested(ast.Module(z.stmt.body, [])):
+                                        if isinstance(st_, ast.Assign) and isinstance(st_.targets[0], ast.Name) and groups_of(st_.value):
+                                            gs_ = groups_of(st_.value)
+                                            ors_ = [b for b in ast.walk(st_.value) if isinstance(b, ast.BoolOp)]
+                                            if gs_ <= kind_g or gs_ <= idx_g:
+                                                want = kind_g if gs_ <= kind_g else idx_g
+                                                if gs_ != want:
+                                                    probs.append(f"{A.unparse(st_)[:60]} reads group(s) {sorted(gs_)} but the pattern has {sorted(want)} for that part: names of one flavour are not parsed")
+                                                if len(gs_) > 1 and not all(isinstance(b.op, ast.Or) for b in ors_):
+                                                    probs.append(f"{A.unparse(st_)[:60]} combines alternative groups with 'and': only one alternative of the pattern matches at a time")
+                                            else:
+                                                probs.append(f"{A.unparse(st_)[:60]} mixes kind groups {sorted(kind_g)} and index groups {sorted(idx_g)}")
                     return probs
 
                 seed_nodes = [z for z in cfg.nodes if seeds(z)]
